@@ -61,6 +61,19 @@ theorem C06.deriv_is_linear {R : Type} [CommRing R] [DecidableEq R]
   obtain ⟨j, e, w, hd, hr, hf, hl⟩ := deriv_type i x hwf
   exact ⟨j, e, w, hd, hr, hf, hl, linear_sem j w hl⟩
 
+/-- Non-vacuity of `deriv_is_linear` on a tree using temporaries with domain ≠ range
+(`OperatorSum(B∘x², B'∘x³, tmp_ran, tmp_dom)` from `ℤ³` to `ℤ²`), a point-wise product of
+functionals and a block operator. -/
+example :
+    let B : Impl Int := .matrix 2 3 (fun r c => (r + c : Nat))
+    let i : Impl Int := .sum (.comp B (.power 3 2) (some 3)) (.comp B (.power 3 3) none) (some 2) (some 3)
+    let f : Impl Int := .pprod (.normsq 3) (.inner 3 (fun k => k + 1))
+    let b : Impl Int := .bcons i (.bcons (.flvec f 2 (fun _ => 5)) (.bnil 3))
+    i.wf = true ∧ i.isLinear = false ∧ f.wf = true ∧ b.wf = true ∧ b.ran = 4 ∧
+      (b.deriv (fun k => k + 1)).map (fun j => (j.isLinear, j.dom, j.ran, j.run (fun _ => 1) 3))
+        = some (true, 3, 4, 5 * (14 * 6 + 2 * 6 * 14)) := by
+  decide
+
 /-- Operators flagged linear are linear maps (so the flag set by the constructors is right for
 every tree of the model). -/
 theorem C06.flagged_linear_is_linear {R : Type} [CommRing R] [DecidableEq R]
@@ -96,6 +109,14 @@ theorem C06.deriv_affine {R : Type} [CommRing R] [DecidableEq R]
     ∃ j, (Impl.vecsum op v).deriv x = some j ∧ ∀ (d : Vec R) (k : Nat), j.run d k = op.run d k := by
   obtain ⟨j, e, _⟩ := deriv_type op x hwf
   exact ⟨j, by simpa [Impl.deriv] using e, OdlModel.Deriv.deriv_linear op hwf hl x j e⟩
+
+/-- Non-vacuity of `deriv_affine`: `x ↦ A x + v`. -/
+example :
+    let A : Impl Int := .matrix 2 2 (fun r c => (r * 2 + c + 1 : Nat))
+    A.wf = true ∧ A.isLinear = true ∧
+      ((Impl.vecsum A (fun _ => 7)).deriv (fun _ => 3)).map (fun j => (j.run (fun k => k + 1) 0, j.run (fun k => k + 1) 1))
+        = some (A.run (fun k => k + 1) 0, A.run (fun k => k + 1) 1) := by
+  decide
 
 /-- Central differences, polynomial world (`_partial`).  Over `R[h]/(h³)`:
 `op(x + h d) = op(x) + h·derivative(x)(d) + c·h²` and
